@@ -11,6 +11,7 @@ Clauses decided (structural necessary conditions, DESIGN.md 3/C09):
 from __future__ import annotations
 
 import ast
+import re
 from typing import Dict, List, Optional, Set, Tuple
 
 from ..core import AnalysisError, CheckResult, ClassInfo, Finding, ModuleInfo, Repo, norm, walk_no_nested, func_params
@@ -34,6 +35,7 @@ ASSUMPTIONS = ["predicate semantics is C10", "equivalence of the optimised route
 
 def run(repo: Repo, tier: str, res: CheckResult, seed: int = 0) -> None:
     late_binding_handlers(repo, res)
+    terminal_flag_kept(repo, res)
     retort_handler_overrides(repo, res)
     facade_cache_vs_recipe(repo, res)
     combiner_typestate(repo, res)
@@ -276,6 +278,40 @@ def _route_handler_ok(repo: Repo, m: ModuleInfo, ci: ClassInfo, fn: ast.Function
                                         "is a legal origin (a provider registered for it sits in the grouped table): the grouped "
                                         "lookup answers although the linear scan (ExactOriginLSC -> False) would not, so a later "
                                         "matching provider is never asked", a.lineno))
+    # the grouped table replaces a run of ExactOriginLSC checkers: its key must be computed from the location exactly as the
+    # checker computes what it compares with its origin (sibling agreement), otherwise the table answers for locations the
+    # linear scan would not match (a tagged hint served by the provider of the bare type) and later providers are skipped
+    for t in tries:
+        keys = [a for a in t.body if isinstance(a, ast.Assign) and len(a.targets) == 1]
+        lsc = repo.mod("provider/loc_stack_filtering").classes.get("ExactOriginLSC")
+        chk = lsc.methods.get("_check_location") if lsc is not None else None
+        if chk is None:
+            raise AnalysisError("anchor vanished: ExactOriginLSC._check_location")
+        locp = func_params(chk)[2] if len(func_params(chk)) > 2 else "loc"
+        # the checker: `norm = normalize_type(loc.type)` ... `return norm.origin == self.origin`
+        ch_assign = {norm(a.targets[0]): a.value for a in ast.walk(chk) if isinstance(a, ast.Assign) and len(a.targets) == 1}
+        ch_ret = [r for r in ast.walk(chk) if isinstance(r, ast.Return) and isinstance(r.value, ast.Compare)]
+        if len(ch_ret) != 1:
+            raise AnalysisError("ExactOriginLSC._check_location: expected one comparing return")
+        cmp_ = ch_ret[0].value
+        side = cmp_.left if "self." in norm(cmp_.comparators[0]) else cmp_.comparators[0]
+
+        def inline(e: ast.expr, table) -> str:
+            txt = norm(e)
+            for _ in range(3):
+                for k, v in table.items():
+                    txt = re.sub(rf"\b{re.escape(k)}\b", norm(v), txt)
+            return txt
+        want = inline(side, ch_assign).replace(f"{locp}.type", "<TYPE>")
+        for a in keys:
+            got = norm(a.value).replace("request.last_loc.type", "<TYPE>")
+            res.evaluated(f"router:{qual}:table-key", True)
+            if got != want:
+                res.add(Finding("C09", "ROUTER.table-key-differs-from-checker", m.rel, qual, norm(a)[:100],
+                                f"the grouped table is looked up with `{got}` while ExactOriginLSC, the checker the table stands for, "
+                                f"compares `{want}`: the two disagree on some locations (a tagged hint such as Annotated[int, ...]), "
+                                "there the table hands the request to a provider the linear scan would have passed over, and the "
+                                "providers after it that truly match are never asked", a.lineno))
     # after the loop: StopIteration
     after = fn.body[fn.body.index(loop) + 1:] if loop in fn.body else []
     if not any(isinstance(s, ast.Raise) and "StopIteration" in norm(s) for s in after):
@@ -448,6 +484,21 @@ def chaining(repo: Repo, res: CheckResult) -> None:
                             "on this path the wrapped handler / the next provider is not consulted exactly once",
                             h.lineno))
     res.count("CHAIN.paths", n_paths, 2)
+    # a failure of either consulted party is the failure of the chaining provider: a handler around one of the two calls that
+    # RETURNS an answer composes the processors zero times (the bare user function serves a request nothing else can serve)
+    for tr in [t for t in walk_no_nested(h) if isinstance(t, ast.Try)]:
+        guarded = [c for st in tr.body for c in ast.walk(st) if isinstance(c, ast.Call)
+                   and norm(c.func) in (wrapped, f"{med}.provide_from_next")]
+        if not guarded:
+            continue
+        for hd in tr.handlers:
+            rets_h = [r for st in hd.body for r in ast.walk(st) if isinstance(r, ast.Return)]
+            if rets_h:
+                res.add(Finding("C09", "CHAIN.failure-answered-alone", m.rel, qual, norm(rets_h[0])[:100],
+                                f"a failure of `{norm(guarded[0])}` is caught and answered with `{norm(rets_h[0])[:60]}`: when no later provider "
+                                "can serve the request the chaining provider serves it alone (the two processors are composed zero "
+                                "times), so a request nobody can process is answered by the bare user function instead of being "
+                                "refused", rets_h[0].lineno))
     for n in walk_no_nested(h):
         if isinstance(n, ast.Assign) and isinstance(n.value, ast.Call):
             if norm(n.value.func) == wrapped:
@@ -675,6 +726,35 @@ def retort_as_provider(repo: Repo, res: CheckResult) -> None:
 
 
 # ------------------------------------------------------------------------------------------ handlers built in loops / overrides
+def terminal_flag_kept(repo: Repo, res: CheckResult) -> None:
+    """CannotProvide carries `is_terminal`: a terminal refusal stops the search of the bus, an ordinary one lets the NEXT provider
+    answer. Code that catches a CannotProvide and raises a new one in its place decides that flag anew; every such site on the
+    tree states it (`is_terminal=True` for mandatory_provide, `False` for provide). A replacement that does not state it
+    falls back to the default (not terminal): a terminal refusal inside a nested retort or provider becomes an ordinary decline
+    and later providers silently serve the request the first matching provider rejected."""
+    n = 0
+    for m in repo.modules.values():
+        if not any(x in m.rel for x in ("/provider/", "/retort/")):
+            continue
+        for hd in [x for x in ast.walk(m.tree) if isinstance(x, ast.ExceptHandler)]:
+            if hd.type is None or "CannotProvide" not in norm(hd.type):
+                continue
+            for r in [x for st in hd.body for x in ast.walk(st) if isinstance(x, ast.Raise) and x.exc is not None]:
+                exc = r.exc
+                if not (isinstance(exc, ast.Call) and "CannotProvide" in norm(exc.func)):
+                    continue
+                n += 1
+                fn = m.enclosing_function(hd)
+                q = m.qualname(fn) if fn is not None else "<module>"
+                res.evaluated(f"terminal-flag:{m.rel}:{q}:{r.lineno}", True)
+                if not any(k.arg == "is_terminal" for k in exc.keywords):
+                    res.add(Finding("C09", "BUS.terminal-flag-not-carried", m.rel, q, norm(exc)[:100],
+                                    f"`{norm(exc)[:80]}` replaces a caught CannotProvide without stating `is_terminal`: a TERMINAL refusal "
+                                    "(a mandatory sub-request failed) leaves as an ordinary decline, the bus goes on and a later "
+                                    "provider answers the request the first matching provider had rejected", r.lineno))
+    res.count("BUS.replaced-refusals", n, 2)
+
+
 def late_binding_handlers(repo: Repo, res: CheckResult) -> None:
     """A handler (any function) defined INSIDE a loop that reads the loop variable and outlives the iteration sees the LAST
     value of that variable when it runs: every wrapped handler of a multi-handler provider chains from the last one (the
